@@ -150,6 +150,22 @@ func applyEdit(d *Doc, k int) *Doc {
 		}
 		c.User[i].Rules = e.rules(c.User[i].Rules)
 	}
+	for i := 0; i < len(c.Files) && !e.done; i++ {
+		if e.hit() {
+			c.Files = append(append([]DocFile{}, c.Files[:i]...), c.Files[i+1:]...)
+		}
+	}
+	for i := range c.Files {
+		if e.done {
+			break
+		}
+		if c.Files[i].Sheet != nil {
+			c.Files[i].Sheet.Rules = e.rules(c.Files[i].Sheet.Rules)
+		}
+		if c.Files[i].Node != nil {
+			e.node(c.Files[i].Node)
+		}
+	}
 	if !e.done && c.Hints && e.hit() {
 		c.Hints = false
 	}
